@@ -14,6 +14,7 @@ EVIDENCE = os.path.join(VERIF, 'evidence')
 KNOWN_FILE = os.path.join(VERIF, 'known_findings.json')
 
 _PK = None
+_PKNAMES = ('pyclifford',)
 _KNOWN = None
 
 
@@ -38,7 +39,9 @@ def packages(names=('pyclifford',)):
 def _worker(job):
     from . import explore
     try:
-        return explore.run_job(job, _PK, _KNOWN, REPLAYS)
+        # every job starts from freshly loaded modules: no module-level state of the repo leaks between obligations
+        pk = _PK if job.get('reuse_modules') else packages(_PKNAMES)
+        return explore.run_job(job, pk, _KNOWN, REPLAYS)
     except BaseException as e:   # never lose a job silently
         return dict(label=job['label'], prop=job['prop'], harness=list(job['harness']), params=job['params'],
                     errors=['worker crashed: %s: %s' % (type(e).__name__, e)], trace=traceback.format_exc()[-2000:],
@@ -58,11 +61,12 @@ def _tv_worker(args):
 
 
 def run_property(prop, tier, procs=16, only=None, tv=True):
-    global _PK, _KNOWN
+    global _PK, _KNOWN, _PKNAMES
     t0 = time.time()
     seed = int(os.environ.get('VERIF_SEED', '0'))
     hm = importlib.import_module('harness.' + prop.lower())
     pkg_names = getattr(hm, 'PACKAGES', ('pyclifford',))
+    _PKNAMES = pkg_names
     setup_errors = []
     try:
         _PK = packages(pkg_names)
